@@ -903,6 +903,36 @@ def prog_unprintable_values(E):
 
     E.outcome("root", root)
 
+    # a user batch whose own __str__ raises (the profiling code names the batch it has flushed)
+    from asynq import batching
+    cur = [None]
+
+    class SilentBatch(batching.BatchBase):
+        def _try_switch_active_batch(self):
+            if cur[0] is self:
+                cur[0] = SilentBatch()
+
+        def _flush(self):
+            for it in self.items:
+                it.set_value(len(self.items))
+
+        def __str__(self):
+            raise ValueError("no str")
+
+        __repr__ = __str__
+
+    class SilentItem(batching.BatchItemBase):
+        def __init__(self):
+            batching.BatchItemBase.__init__(self, cur[0])
+
+    cur[0] = SilentBatch()
+
+    @a.asynq()
+    def uses_silent():
+        return (yield [SilentItem(), SilentItem()])
+
+    E.outcome("silent-batch", uses_silent)
+
 
 def prog_awkward_arguments(E):
     """task arguments and batch objects whose str()/repr() is long, raises, or recurses (DUMP_* flags convert live objects)"""
